@@ -684,7 +684,7 @@ fn observe_dwarf<R: Reader<Offset = usize>>(
                 let full = d.format_error(err);
                 (res, full.strip_prefix(&plain).unwrap_or(&full).to_string())
             }
-            None => (json!("no-owner-memory"), String::new()),
+            None => (json!("borrow-closure-never-received-this-owner-section"), String::new()),
         };
         out.push(json!({"sup": is_sup, "sec": sec, "k": k, "res": res, "fmt": fmt}));
     }
